@@ -198,6 +198,9 @@ class FragGen:
         g = self.gap(p) if p > 0 else self.rng.choice([" "] * 10 + ["  ", "\n", "\n  ", "\n  ", "\n\n  ", ""])
         if g == "" and prev[-1] not in ")]}":
             g = " "   # `athen`, `1else` … would be other tokens
+        if g.endswith("*/") and prev.endswith(("nix", "h", ">")):
+            g += " "   # tree-sitter-nix quirk: `./p.nix /*c*/then` (block comment touching the keyword in the trivia
+            #            run after a path) is a syntax error
         return s + self._after(s, prev, g) + word
 
     def _kw_head(self, s: str, nxt: str, p: float) -> str:
